@@ -157,6 +157,7 @@ func (u *unionNullString) Omit(p unsafe.Pointer) bool {
 func (u *unionNullString) Write(w *WriteBuf, p unsafe.Pointer) {
 	if u.codec.Omit(p) {
 		w.Varint(0)
+		return
 	}
 
 	w.Varint(1)
